@@ -370,6 +370,493 @@ def check_C07(cx):
                   "checked after every dump; distinct = distinct histories" % maxn)
 
 
+# ---- implementation-side oracles for the state-machine properties ------------------------------
+# They use only outputs of the real library: the per-line results (each line assembled alone on
+# a fresh-state instance) and the result of the call under test.
+
+def line_codes(res, opt, text):
+    """per-line codes of a program from the implementation's own per-line table;
+    returns (list of bytes objects, index of first rejected line or None)"""
+    codes = []
+    for i, l in enumerate(split_lines(text)):
+        rc, bs = res[(opt, l)]
+        if rc != "0":
+            return codes, i
+        if bs != "-":
+            codes.append(bytes.fromhex(bs))
+    return codes, None
+
+
+def spec_fit_layout(codes, c, p, nops):
+    """what fitting mode has to store (AL.Lemmas.layoutAll / Properties.C13): pads of NOP-table entries"""
+    out = bytearray()
+    for bs in codes:
+        free = c - p % c
+        if not (len(bs) <= free or len(bs) >= c):
+            rem = free
+            while rem > 0:
+                k = min(rem, len(nops))
+                out += bytes(nops[k - 1])
+                rem -= k
+            p += free
+        out += bs
+        p += len(bs)
+    return bytes(out)
+
+
+def spec_cross_count(codes, c, p):
+    n = 0
+    for bs in codes:
+        if len(bs) > 0 and p // c != (p + len(bs) - 1) // c:
+            n += 1
+        p += len(bs)
+    return n
+
+
+def run_impl(impl, ops):
+    rc, out, err = alv.run_driver(impl, ops)
+    if rc != 0 or len(out) != len(ops):
+        k = alv.bisect_crash(impl, ops) if rc != 0 else len(out)
+        raise ImplCrash(ops[min(k, len(ops) - 1)], err)
+    return out
+
+
+def check_C06(cx):
+    thms = ["AL.Properties.C06." + t for t in ["program_code", "program_code_lib", "concat_call", "split_codes", "split_calls"]] + \
+           ["AL.Lemmas.assembleLine_local", "AL.Lemmas.items_eq_itemsL", "AL.Lemmas.asm_layout", "AL.Lemmas.runCodes_layout"]
+    info = stage_proofs(cx, "AL.Properties.C06", thms)
+    impl = build_impl(cx)
+    if not (info and impl):
+        return finish(cx, "")
+    g = cases.Gen(cx.seed, info["tables"])
+    r = g.r
+    progs = []
+    reps = cases.REPR_LINES
+    # every ordered pair from the representative set
+    step = 1 if cx.tier == "thorough" else 1
+    for a in reps:
+        for b in reps:
+            progs.append((14, a + b"\n" + b))
+    npairs = len(progs)
+    # random longer programs, other option bytes, CR/CRLF, comment/label lines
+    for _ in range(600 if cx.tier == "quick" else 6000):
+        progs.append((r.choice(cases.OPTS), g.program(r.choice([2, 3, 5, 8, 12]))))
+    hists = []
+    meta = []
+    for opt, text in progs:
+        k = r.choice([0, 0, 1, 7, 33])
+        fill = r.choice([0x00, 0xcc, 0xff, 0x90])
+        lines = split_lines(text)
+        cut = r.randrange(len(lines)) if len(lines) > 1 else 0
+        # split at a line boundary: join back with LF
+        t1 = b"\n".join(lines[:cut + 1])
+        t2 = b"\n".join(lines[cut + 1:])
+        setopt = ["S 0 mov %d" % (opt & 3), "S 0 swap %d" % ((opt >> 2) & 1), "S 0 nobase %d" % ((opt >> 3) & 1)]
+        h = ["N 0 400 %02x" % fill] + setopt + ["O 0 %d" % k, "A 0 %s" % cases.hexs(text), "G 0", "D 0 0 400", "F 0",
+             "N 0 400 %02x" % (fill ^ 0x5a)] + setopt + ["O 0 %d" % k, "A 0 %s" % cases.hexs(t1), "A 0 %s" % cases.hexs(t2),
+             "G 0", "D 0 0 400", "F 0"]
+        hists.append(h)
+        meta.append((opt, text, k, fill, len(setopt)))
+    ops, out = tie_api_mod_lf(cx, impl, hists, "C06 programs: one call vs two calls vs per-line results")
+    # oracle on the implementation's outputs
+    keys = set((o, l) for o, t, _, _, _ in meta for l in split_lines(t))
+    res = impl_line_results(impl, keys)
+    pos = 0
+    nviol = 0
+    nontriv = 0
+    for (opt, text, k, fill, ns), h in zip(meta, hists):
+        o = out[pos:pos + len(h)]
+        pos += len(h)
+        if len(o) < len(h):
+            break
+        codes, bad = line_codes(res, opt, text)
+        a_whole = o[ns + 2].split()
+        off_whole, dump_whole = o[ns + 3], o[ns + 4]
+        base = len(h) // 2
+        off_two, dump_two = o[-3], o[-2]
+        a_t1, a_t2 = o[base + ns + 2].split(), o[base + ns + 3].split()
+        if bad is None:
+            code = b"".join(codes)
+            nontriv += 1 if len(codes) > 1 else 0
+            exp_off = k + len(code)
+            got = bytes.fromhex(dump_whole) if dump_whole != "-" else b""
+            ok = a_whole[0] == "0" and int(off_whole) == exp_off and got[k:k + len(code)] == code and \
+                got[:k] == bytes([fill]) * k
+            got2 = bytes.fromhex(dump_two) if dump_two != "-" else b""
+            ok2 = a_t1[0] == "0" and a_t2[0] == "0" and int(off_two) == exp_off and got2[k:k + len(code)] == code
+            if not (ok and ok2) and nviol < 5:
+                nviol += 1
+                cx.violations.append({"kind": "concat", "opt": opt, "program": text.decode("latin1"), "start_offset": k,
+                                      "expected_code": code.hex(), "one_call": dump_whole[2 * k:2 * (k + len(code) + 4)],
+                                      "two_calls": dump_two[2 * k:2 * (k + len(code) + 4)], "offsets": [off_whole, off_two, exp_off],
+                                      "what": "code of the program is not the concatenation of its lines' codes / differs between one and two calls",
+                                      "history": h})
+        else:
+            if a_whole[0] != "1" and nviol < 5:
+                nviol += 1
+                cx.violations.append({"kind": "concat", "opt": opt, "program": text.decode("latin1"),
+                                      "what": "a line that is rejected alone was accepted inside the program", "history": h})
+    cx.nontrivial.update((o, t) for o, t, _, _, _ in meta)
+    cx.cov["samples"] = [hists[3], hists[npairs + 1] if len(hists) > npairs + 1 else hists[-1]]
+    cx.dist = {"ordered_pairs": npairs, "representative_lines": len(reps), "random_programs": len(progs) - npairs,
+               "programs_with_all_lines_accepted_and_2+_instructions": nontriv}
+    return finish(cx, "every ordered pair of %d representative lines (one per encoding class) as a two-line program, plus seeded random "
+                  "programs (2..12 lines, LF/CR/CRLF, comment/label/blank lines, all 12 option bytes), each assembled in one call and "
+                  "split at a random line boundary into two calls, at start offsets {0,1,7,33} over different buffer fills; "
+                  "oracle: concatenation of the implementation's own per-line results; distinct = distinct (options, program)" % len(reps))
+
+
+def check_C13(cx):
+    thms = ["AL.Properties.C13." + t for t in ["pad_only_when_crossing", "instruction_in_one_chunk", "fitting_is_plain_with_pads",
+            "plain_layout", "pads_are_nops", "small_chunk_disables", "chunk_enables", "fitting_call", "pad_is_nops"]] + \
+           ["AL.Lemmas.second_round_fits", "AL.Lemmas.emitOne_layout", "AL.Lemmas.runCodes_layout", "AL.Lemmas.pad_aligned"]
+    info = stage_proofs(cx, "AL.Properties.C13", thms)
+    impl = build_impl(cx)
+    if not (info and impl):
+        return finish(cx, "")
+    nops = info["tables"]["nops"]
+    g = cases.Gen(cx.seed, info["tables"])
+    r = g.r
+    pool = cases.REPR_LINES + cases.LONG_LINES
+    # one representative line per instruction length the library emits
+    res0 = impl_line_results(impl, [(14, l) for l in pool])
+    bylen = {}
+    for l in pool:
+        rc, bs = res0[(14, l)]
+        if rc == "0" and bs != "-":
+            bylen.setdefault(len(bs) // 2, l)
+    lens = sorted(bylen)
+    hists, meta = [], []
+    cmax = 40 if cx.tier == "thorough" else 24
+    for c in range(2, cmax + 1):
+        for p0 in range(0, c):
+            for ln in lens:
+                text = b"\n".join([b"nop"] * 0 + [bylen[ln], bylen[lens[(ln + c) % len(lens)]]])
+                hists.append(["N 0 300 cc", "K 0 %d" % c, "O 0 %d" % p0, "A 0 %s" % cases.hexs(text), "G 0", "D 0 0 300", "F 0"])
+                meta.append((14, text, c, p0))
+    nstruct = len(hists)
+    for _ in range(500 if cx.tier == "quick" else 5000):
+        c = r.choice([2, 3, 4, 5, 7, 8, 9, 13, 16, 21, 32, 64])
+        p0 = r.randrange(0, 70)
+        text = b"\n".join(r.choice(pool) for _ in range(r.choice([1, 2, 3, 5, 9])))
+        hists.append(["N 0 300 cc", "K 0 %d" % c, "O 0 %d" % p0, "A 0 %s" % cases.hexs(text), "G 0", "D 0 0 300", "F 0"])
+        meta.append((14, text, c, p0))
+    # fitting switched on and off between calls, c < 2 disables it
+    for _ in range(200 if cx.tier == "quick" else 2000):
+        c1, c2 = r.choice([0, 1, 2, 5, 8, 16]), r.choice([0, 1, 3, 8, 13])
+        t1 = b"\n".join(r.choice(pool) for _ in range(3))
+        t2 = b"\n".join(r.choice(pool) for _ in range(3))
+        hists.append(["N 0 300 cc", "K 0 %d" % c1, "A 0 %s" % cases.hexs(t1), "G 0", "K 0 %d" % c2, "A 0 %s" % cases.hexs(t2),
+                      "G 0", "D 0 0 300", "F 0"])
+        meta.append(None)
+    ops, out = tie_api_mod_lf(cx, impl, hists, "C13 chunk fitting histories")
+    res = impl_line_results(impl, set((14, l) for m in meta if m for l in split_lines(m[1])))
+    pos, nviol, npadded = 0, 0, 0
+    for m, h in zip(meta, hists):
+        o = out[pos:pos + len(h)]
+        pos += len(h)
+        if m is None or len(o) < len(h):
+            continue
+        opt, text, c, p0 = m
+        codes, bad = line_codes(res, opt, text)
+        if bad is not None:
+            continue
+        exp = spec_fit_layout(codes, c, p0, nops)
+        if len(exp) != sum(map(len, codes)):
+            npadded += 1
+        rc = o[3].split()[0]
+        got = bytes.fromhex(o[5]) if o[5] != "-" else b""
+        ok = rc == "0" and int(o[4]) == p0 + len(exp) and got[p0:p0 + len(exp)] == exp
+        if not ok and nviol < 5:
+            nviol += 1
+            cx.violations.append({"kind": "fitting", "chunk": c, "start_offset": p0, "program": text.decode("latin1"),
+                                  "expected": exp.hex(), "got": got[p0:p0 + len(exp) + 8].hex(), "offset": o[4],
+                                  "what": "output is not the plain code with NOP-table pads exactly in front of the instructions that "
+                                          "would straddle a boundary", "history": h})
+    cx.nontrivial.update(m for m in meta if m)
+    cx.cov["samples"] = [hists[10], hists[nstruct + 2], hists[-1]]
+    cx.dist = {"chunk_sizes_exhaustive": [2, cmax], "instruction_lengths": lens, "structured": nstruct,
+               "random": len(hists) - nstruct, "cases_with_padding": npadded}
+    return finish(cx, "every chunk size 2..%d x every start position mod c x every instruction length the library emits (%s bytes; one "
+                  "representative line each) followed by a second instruction; seeded random programs/chunk sizes/offsets; fitting switched "
+                  "on/off between calls incl. c<2; oracle: spec layout (pads from the regenerated NOP table) computed from the "
+                  "implementation's own per-line codes; distinct = distinct (program, c, offset)" % (cmax, lens))
+
+
+def check_C14(cx):
+    thms = ["AL.Properties.C14." + t for t in ["count_call", "count_call_small", "crosses_spec", "crossCount_append"]] + \
+           ["AL.Lemmas.cross_iff", "AL.Lemmas.emitOne_count", "AL.Lemmas.runCodes_count", "AL.Lemmas.runCodes_plain_setMC"]
+    info = stage_proofs(cx, "AL.Properties.C14", thms)
+    impl = build_impl(cx)
+    if not (info and impl):
+        return finish(cx, "")
+    g = cases.Gen(cx.seed, info["tables"])
+    r = g.r
+    pool = cases.REPR_LINES + cases.LONG_LINES
+    hists, meta = [], []
+    cs = [-1, 0, 1] + list(range(2, 65 if cx.tier == "thorough" else 34)) + [2 ** 31 - 1]
+    for c in cs:
+        for p0 in sorted(set([0, 1, 2, 3, 5, 7, 8, 15, 16, 31] + ([max(c - 1, 0), c, c + 1] if 0 < c < 200 else []))):
+            for _ in range(2):
+                text = b"\n".join(r.choice(pool) for _ in range(r.choice([1, 3, 6])))
+                h = ["N 0 400 cc", "O 0 %d" % p0, "C 0 %d %s 1" % (c, cases.hexs(text)), "G 0", "D 0 0 400",
+                     # the same program again: the count is that of the current call only
+                     "C 0 %d %s 1" % (c, cases.hexs(text)), "G 0", "A 0 %s" % cases.hexs(b"nop"), "G 0", "F 0",
+                     "N 0 400 cc", "O 0 %d" % p0, "A 0 %s" % cases.hexs(text), "G 0", "D 0 0 400", "F 0"]
+                hists.append(h)
+                meta.append((14, text, c, p0))
+    for _ in range(300 if cx.tier == "quick" else 4000):
+        c = r.choice([2, 3, 4, 5, 7, 8, 16, 32, 64, 100, 4096])
+        p0 = r.randrange(0, 100)
+        text = g.program(r.choice([1, 2, 4, 8]))
+        opt = r.choice(cases.OPTS)
+        setopt = ["S 0 mov %d" % (opt & 3), "S 0 swap %d" % ((opt >> 2) & 1), "S 0 nobase %d" % ((opt >> 3) & 1)]
+        h = ["N 0 400 cc"] + setopt + ["O 0 %d" % p0, "C 0 %d %s 1" % (c, cases.hexs(text)), "G 0", "D 0 0 400", "F 0"]
+        hists.append(h)
+        meta.append(None)
+    ops, out = tie_api_mod_lf(cx, impl, hists, "C14 counting histories")
+    res = impl_line_results(impl, set((14, l) for m in meta if m for l in split_lines(m[1])))
+    pos, nviol, ncross = 0, 0, 0
+    for m, h in zip(meta, hists):
+        o = out[pos:pos + len(h)]
+        pos += len(h)
+        if m is None or len(o) < len(h):
+            continue
+        opt, text, c, p0 = m
+        codes, bad = line_codes(res, opt, text)
+        if bad is not None:
+            continue
+        rc, off, dest = o[2].split()
+        rc2, off2, dest2 = o[5].split()
+        plain_rc, plain_off = o[12].split()
+        total = sum(map(len, codes))
+        exp = spec_cross_count(codes, c, p0) if c >= 2 else 0
+        exp2 = spec_cross_count(codes, c, p0 + total) if c >= 2 else 0
+        ncross += 1 if exp else 0
+        ok = rc == "0" and plain_rc == "0" and off == plain_off and int(dest) == exp and o[4] == o[14] and \
+            rc2 == "0" and int(dest2) == exp2 and o[7].split()[0] == "0"
+        if not ok and nviol < 5:
+            nviol += 1
+            cx.violations.append({"kind": "count", "chunk": c, "start_offset": p0, "program": text.decode("latin1"),
+                                  "expected_count": [exp, exp2], "got": [dest, dest2], "offsets": [off, plain_off],
+                                  "what": "count/bytes of the counting call differ from the number of instructions that span two chunks / "
+                                          "from plain assembly, or the following plain call failed", "history": h})
+    cx.nontrivial.update(m for m in meta if m)
+    cx.cov["samples"] = [hists[20], hists[-1]]
+    cx.dist = {"chunk_sizes": "%d values incl. -1,0,1,2^31-1" % len(cs), "structured": sum(1 for m in meta if m),
+               "random": sum(1 for m in meta if not m), "cases_with_nonzero_count": ncross}
+    return finish(cx, "chunk sizes -1,0,1,2..33(64),2^31-1 x start offsets incl. exact-fit positions x random programs from the "
+                  "representative set, each counted twice in a row (per-call count), followed by a plain call (mode restored) and compared "
+                  "with plain assembly of the same program; seeded random programs/options; oracle: floor-division crossing count from the "
+                  "implementation's own per-line code lengths; distinct = distinct (program, c, offset)")
+
+
+def check_C08(cx):
+    thms = ["AL.Properties.C08." + t for t in ["internal_has_room", "internal_step_error", "external_step_error", "plain_success_iff",
+            "growth_keeps_code", "same_as_caller_buffer"]] + ["AL.Lemmas.check_frame", "AL.Lemmas.assembleAll_post", "AL.Lemmas.asm_layout"]
+    info = stage_proofs(cx, "AL.Properties.C08", thms)
+    impl = build_impl(cx)
+    if not (info and impl):
+        return finish(cx, "")
+    g = cases.Gen(cx.seed, info["tables"])
+    r = g.r
+    Q = 6000
+    finals = [b"ret", b"add rax, rbx", b"mov rax, 0x1122334455667788", b"lea rax, [rsi+0x12345678]",
+              b"mov qword [rax+rbx*8+0x12345678], 0x12345678"]
+    hists, meta = [], []
+    BIG = 40000
+
+    def twin(ops_for):
+        """the same calls on an internal instance (id 0) and on a big caller buffer (id 1)"""
+        h = ["N 0 -", "N 1 %d 00" % BIG]
+        h += ops_for(0) + ops_for(1)
+        h += ["G 0", "G 1", "B 0", "F 0", "F 1"]
+        return h
+    # (a) growth reached by moving the offset next to each growth point, all three modes
+    qs = (1, 2, 3) if cx.tier == "thorough" else (1, 2)
+    for q in qs:
+        for delta in range(-21, 22):
+            for mi, mode in enumerate(("plain", "fit7", "fit9", "fit13", "fit16", "count16")):
+                if cx.tier == "quick" and (delta + mi + q) % 2:
+                    continue
+                fin = finals[(delta + mi) % len(finals)]
+                prog = b"\n".join([fin, b"clc", fin, b"mov rax, 0x1234", b"ret"])
+
+                def ops_for(i, q=q, delta=delta, mode=mode, prog=prog):
+                    o = []
+                    # walk up to the q-th growth point so that every earlier growth has happened
+                    for j in range(1, q):
+                        o += ["O %d %d" % (i, j * Q - 5), "A %d %s" % (i, cases.hexs(b"nop\n" * 30))]
+                    if mode.startswith("fit"):
+                        o.append("K %d %s" % (i, mode[3:]))
+                    o.append("O %d %d" % (i, q * Q + delta))
+                    if mode.startswith("count"):
+                        o.append("C %d 16 %s 1" % (i, cases.hexs(prog)))
+                    else:
+                        o.append("A %d %s" % (i, cases.hexs(prog)))
+                    o.append("D %d %d %d" % (i, q * Q - 30, q * Q + 80))
+                    return o
+                hists.append(twin(ops_for))
+                meta.append(("jump", q, delta, mode))
+    # (b) genuinely long programs ending within +-20 of a growth point, single call and two calls
+    longn = 6 if cx.tier == "quick" else 40
+    for _ in range(longn):
+        q = r.choice(qs)
+        delta = r.randrange(-20, 21)
+        body = [r.choice([b"clc", b"nop", b"ret", b"add rax, rbx", b"mov rax, 0x1122334455667788", b"push r12"])
+                for _ in range(3000 * q)]
+        mode = r.choice(["plain", "plain", "fit9", "fit16", "count16"])
+        text = b"\n".join(body)
+        cut = r.randrange(1, len(body))
+        t1, t2 = b"\n".join(body[:cut]), b"\n".join(body[cut:])
+
+        def ops_for(i, mode=mode, text=text, t1=t1, t2=t2):
+            o = []
+            if mode.startswith("fit"):
+                o.append("K %d %s" % (i, mode[3:]))
+            if mode.startswith("count"):
+                o.append("C %d 16 %s 1" % (i, cases.hexs(text)))
+            else:
+                o += ["A %d %s" % (i, cases.hexs(t1)), "A %d %s" % (i, cases.hexs(t2))]
+            o.append("G %d" % i)
+            return o
+        h = twin(ops_for)
+        hists.append(h)
+        meta.append(("long", q, delta, mode))
+    ops, out = tie_api_mod_lf(cx, impl, hists, "C08 internal buffer vs large caller buffer")
+    # oracle: internal and caller-buffer runs agree op by op (return values, offsets, dumped bytes)
+    pos, nviol, ngrow = 0, 0, 0
+    for m, h in zip(meta, hists):
+        o = out[pos:pos + len(h)]
+        pos += len(h)
+        if len(o) < len(h):
+            break
+        body = h[2:-5]
+        half = len(body) // 2
+        oi, oe = list(o[2:2 + half]), list(o[2 + half:2 + 2 * half])
+        for j in range(half):
+            if body[j].startswith("D "):   # the internal dump is clipped at the (smaller) buffer length
+                L = min(len(oi[j]), len(oe[j]))
+                oi[j], oe[j] = oi[j][:L], oe[j][:L]
+        if int(o[-3]) > 6020:
+            ngrow += 1
+        if (oi != oe or o[-5] != o[-4]) and nviol < 5:
+            nviol += 1
+            k = next((j for j in range(half) if oi[j] != oe[j]), None)
+            cx.violations.append({"kind": "growth", "case": list(m), "first_difference": None if k is None else
+                                  {"op_internal": body[k][:120], "internal": oi[k][:200], "caller_buffer": oe[k][:200]},
+                                  "offsets": [o[-5], o[-4]],
+                                  "what": "library-managed buffer and large caller buffer disagree", "history": [x[:300] for x in h]})
+    # executable after growth: code placed behind the growth point runs (implementation only)
+    xops = ["N 0 -", "O 0 %d" % (Q - 3), "A 0 %s" % cases.hexs(b"nop\n" * 40 + b"mov rax, 0x1234\nret"), "B 0", "O 0 0",
+            "A 0 %s" % cases.hexs(b"jmp %d" % (Q - 3 - 5)), "X 0", "F 0"]
+    try:
+        xo = run_impl(impl, xops)
+        cx.oblige("code behind the growth point executes (jmp into the grown region, returns 0x1234)", xo[6] == "1234", json.dumps(xo))
+        if xo[6] != "1234":
+            cx.violations.append({"kind": "exec", "ops": xops, "out": xo})
+    except ImplCrash as e:
+        cx.violations.append({"kind": "crash", "op": e.op, "stderr": e.err[-800:], "what": "executing code behind the growth point"})
+    cx.nontrivial.update(meta)
+    cx.cov["samples"] = [[x[:160] for x in hists[3]]]
+    cx.dist = {"offset_jump_cases": sum(1 for m in meta if m[0] == "jump"), "long_programs": sum(1 for m in meta if m[0] == "long"),
+               "cases_where_the_buffer_grew": ngrow, "growth_points": list(qs),
+               "modes": ["plain", "fitting 7/9/13/16", "counting 16"]}
+    cx.assumptions.append("mremap keeps contents and protection (the harness forces a MOVE on every growth by mapping a PROT_NONE page behind the buffer)")
+    return finish(cx, "internal instance vs 40000-byte caller buffer, same calls: offsets -21..+21 around each growth point (6000*q) x "
+                  "plain / fitting (chunk 7,9,13,16) / counting, reached after all earlier growths happened; genuinely long programs "
+                  "(3000*q lines) as one call or two; every growth is forced to move the mapping; plus execution of code behind the growth "
+                  "point; distinct = distinct (kind, q, delta, mode)")
+
+
+def check_C15(cx):
+    thms = ["AL.Properties.C15." + t for t in ["same_result", "same_bytes", "same_count", "counting_restores", "failed_call_harmless",
+            "after_history", "agree_of_J", "index_tables_deterministic"]] + ["AL.Lemmas.emitOne_agree", "AL.Lemmas.runCodes_agree"]
+    info = stage_proofs(cx, "AL.Properties.C15", thms)
+    impl = build_impl(cx)
+    if not (info and impl):
+        return finish(cx, "")
+    g = cases.Gen(cx.seed, info["tables"])
+    r = g.r
+    pool = cases.REPR_LINES
+    good = [b"mov rax, rbx\nret", b"vaddpd ymm3, ymm2, ymm1\nrorx rax, rbx, 5", b"mulx r8, r9, r10\nvmovupd [rdx], ymm3",
+            b"lea r15, [rax+rsp]\nlea r15, [2*rax]\nmov rax, 0x1"]
+    bad = [b"bogus", b"mov rax, rbx\nmov rax, [rbx\nret", b"add rax, rbx, rcx, rdx, rsi", b"nop11 word -1\nimul r9, word [0x10+4*r13], 0x8000000000000000"]
+    alphabet = (["A %s" % cases.hexs(t) for t in good] + ["A %s" % cases.hexs(t) for t in bad] +
+                ["C 5 %s 1" % cases.hexs(good[0]), "C 0 %s 1" % cases.hexs(good[1]), "C 7 %s 0" % cases.hexs(good[0]),
+                 "C 3 %s 1" % cases.hexs(bad[1]), "K 8", "K 0", "S all 0", "S mov 1", "S sib 0", "O 3", "O 60",
+                 "OTHER"])
+    finals = [("A", good[3]), ("A", good[1]), ("A", bad[1]), ("C", good[2])]
+    import itertools
+    hists, meta = [], []
+    maxlen = 3 if cx.tier == "thorough" else 2
+
+    def build(seq, setting, fin, k, n=160):
+        mov, swap, nb, chunk = setting
+        explicit = ["S 0 mov %d" % mov, "S 0 swap %d" % swap, "S 0 nobase %d" % nb, "K 0 %d" % chunk, "O 0 %d" % k]
+        kind, text = fin
+        call = ("A 0 %s" % cases.hexs(text)) if kind == "A" else ("C 0 6 %s 1" % cases.hexs(text))
+        tail = explicit + [call, "G 0", "D 0 %d %d" % (k, n), "A 0 %s" % cases.hexs(b"ret"), "G 0"]
+        h = ["N 0 %d %02x" % (n, r.choice([0, 0xcc, 0xff]))]
+        for op in seq:
+            if op == "OTHER":
+                # another instance is created, used and destroyed meanwhile
+                h += ["N 1 64 00", "S 1 all 0", "A 1 %s" % cases.hexs(good[0]), "K 1 4", "F 1"]
+            else:
+                parts = op.split(" ", 1)
+                h.append(parts[0] + " 0 " + parts[1])
+        h += tail + ["F 0", "N 0 %d %02x" % (n, 0x5a)] + tail + ["F 0"]
+        return h, len(tail)
+    settings = [(2, 1, 1, 0), (0, 0, 0, 8), (1, 1, 0, 5)]
+    for n in range(0, maxlen + 1):
+        for seq in itertools.product(alphabet, repeat=n):
+            si = (len(hists)) % len(settings)
+            fin = finals[len(hists) % len(finals)]
+            k = [0, 5, 17][len(hists) % 3]
+            h, tl = build(seq, settings[si], fin, k)
+            hists.append(h)
+            meta.append(tl)
+    nex = len(hists)
+    for _ in range(300 if cx.tier == "quick" else 3000):
+        seq = [r.choice(alphabet) for _ in range(r.choice([4, 6, 10]))]
+        setting = (r.choice([0, 1, 2]), r.choice([0, 1]), r.choice([0, 1]), r.choice([0, 1, 2, 5, 8, 16]))
+        fin = (r.choice(["A", "C"]), b"\n".join(r.choice(pool) for _ in range(r.choice([1, 3, 5]))))
+        h, tl = build(seq, setting, fin, r.choice([0, 1, 9, 40]))
+        hists.append(h)
+        meta.append(tl)
+    ops, out = tie_api_mod_lf(cx, impl, hists, "C15 histories vs fresh instance")
+    pos, nviol = 0, 0
+    for tl, h in zip(meta, hists):
+        o = out[pos:pos + len(h)]
+        pos += len(h)
+        if len(o) < len(h):
+            break
+        # outputs of the final block after the history vs on the fresh instance (skip the 5 'ok's of the explicit settings)
+        used = list(o[len(h) - 2 * tl - 3: len(h) - tl - 3])
+        fresh = list(o[len(h) - tl - 1: len(h) - 1])
+        # compare the dumped bytes only from the starting offset up to the new offset (what lies
+        # behind it is the caller's old buffer contents, which differ on purpose)
+        kk = int(h[len(h) - tl - 1 + 4].split()[2])
+        for blk in (used, fresh):
+            try:
+                newoff = int(blk[6])
+                blk[7] = blk[7][: max(0, 2 * (newoff - kk))]
+            except ValueError:
+                pass
+        if used != fresh and nviol < 5:
+            nviol += 1
+            cx.violations.append({"kind": "history", "after_history": used[5:], "fresh": fresh[5:],
+                                  "what": "the same call with the same options, chunk setting and offset behaves differently after this history "
+                                          "than on a fresh instance", "history": [x[:200] for x in h]})
+    cx.nontrivial.update(tuple(h) for h in hists)
+    cx.cov["samples"] = [hists[7], hists[-1]]
+    cx.dist = {"alphabet": len(alphabet), "exhaustive_up_to_len": maxlen, "exhaustive_histories": nex, "random_histories": len(hists) - nex}
+    return finish(cx, "every history of up to %d calls from a %d-call alphabet (successful and failing assemblies, counting calls incl. "
+                  "NULL dest and c<2, chunk/option/offset changes, another instance created-used-destroyed) followed by explicit settings, "
+                  "asm_set_offset and a final call, compared output by output with the same block on a fresh instance over a different "
+                  "buffer fill; then seeded random longer histories; distinct = distinct histories" % (maxlen, len(alphabet)))
+
+
 def history_around(ops, idx):
     """the ops of the history that contains op number idx (a history starts at its first N op
     after an F op or at the beginning)"""
@@ -382,7 +869,7 @@ def history_around(ops, idx):
     return ops[start:end + 1]
 
 
-CHECKS = {"C12": check_C12, "C07": check_C07}
+CHECKS = {"C12": check_C12, "C07": check_C07, "C06": check_C06, "C13": check_C13, "C14": check_C14, "C08": check_C08, "C15": check_C15}
 
 
 def run_check(prop, tier, seed):
